@@ -699,7 +699,10 @@ impl ConnectionPool {
 
                     let proxy = connection;
                     let server = &*proxy;
-                    let server_parameters: ServerParameters = server.server_parameters();
+                    // The connection may have served clients already (a pool rebuilt by a reload is
+                    // used by the clients that were connected before it): what the server said of
+                    // itself when the connection was opened, not what those clients have set on it.
+                    let server_parameters: ServerParameters = server.startup_parameters();
 
                     let mut guard = pool_server_parameters.write();
                     *guard = server_parameters;
